@@ -398,7 +398,7 @@ def gen_rel(rng, force=None):
     has_root_row = any(p is None for _, p, _ in rows)
     defect = force if force and force not in ("malformed",) else rng.choice(
         ["noroot", "tworoots", "nullplus", "nullplus", "ambig", "ambig", "ambig_last", "ambig_null", "duprow",
-         "duprow_attr", "cycle_unreach", "selfloop", "allowdup", "two_null", "dup_null"])
+         "duprow_attr", "cycle_unreach", "selfloop", "allowdup", "two_null", "dup_null", "emptyname"])
     ad = False
     rows = order_rows(rng, rows)
     fresh = lambda k: {c: (k if c == "age" else "z") for c in cols}
@@ -470,6 +470,11 @@ def gen_rel(rng, force=None):
         rows = [r for r in rows if r[1] is not None]
         rows.insert(rng.randint(0, len(rows)), [names[0], None, attrs[0]])
         rows.insert(rng.randint(0, len(rows)), [names[0], None, fresh(2)])
+    elif defect == "emptyname":
+        # Node refuses an empty name: as a leaf, as an inner node, or as the root
+        x = rng.randrange(0, n)
+        rows = [[("" if c == names[x] else c), (None if p is None else "" if p == names[x] else p), a]
+                for c, p, a in rows]
     elif defect == "cycle_reach":
         if not nonleaf:
             return gen_rel(rng, force)
@@ -512,7 +517,7 @@ def gen_nest(rng, force_malformed=None):
     _, ch = preorder(par)
     malformed = rng.random() < 0.25 if force_malformed is None else force_malformed
     victim = rng.randrange(len(par))
-    defect = rng.choice(["bad", "bad", "noname", "dupsib", "empty"]) if malformed else None
+    defect = rng.choice(["bad", "bad", "noname", "dupsib", "empty", "emptyname"]) if malformed else None
     if defect == "dupsib":
         wide = [i for i in range(len(par)) if len(ch[i]) >= 2]
         if wide:
@@ -540,6 +545,8 @@ def gen_nest(rng, force_malformed=None):
             d["ckind"] = "bad"
             d["bad"] = rng.choice(["str", "int", "none", "tuple", "dict"])
             d["kids"] = []
+        if i == victim and defect == "emptyname":
+            d["entries"] = [[k, ("" if k == name_key else v)] for k, v in entries]
         if i == victim and defect == "noname":
             d["entries"] = [e for e in entries if e[0] != name_key]
         if i == victim and defect == "dupsib" and len(d["kids"]) >= 2:
@@ -595,6 +602,8 @@ def corpus(prop):
         ("reachable-cycle-allow-duplicates", rel([["a", "r", {}], ["b", "a", {}], ["a", "b", {}]], ad=True)),
         ("allow-duplicates", rel([["b", "a", {}], ["c", "a", {}], ["x", "b", {}], ["x", "c", {}], ["y", "x", {}]],
                                  ad=True)),
+        ("empty-leaf-name", rel([["b", "a", {}], ["", "a", {}]])),
+        ("empty-root-name", rel([["b", "", {}], ["c", "b", {}]])),
         ("unsorted-siblings", rel([["c", "a", A(age=1)], ["b", "a", A(age=2)], ["a2", "a", A(age=3)],
                                    ["z", "c", A(age=None)]], ["age"])),
         ("heap-docstring", {"kind": "heap", "list": [1, 2, 3, 4, 5, 6, 7, 8, 9, 10]}),
@@ -735,8 +744,6 @@ def partial_clauses(prop):
         "acceptance is proved for the relations of every valid tree in every row order (C13_relation_of_tree, "
         "C13_row_order); that every row list passing the boolean test `presents_tree` of Spec/PC13.v is accepted has no "
         "theorem - that clause of prop_rel is only evaluated on every implementation output",
-        "nested dictionaries outside the documented form (missing name, non-list children, repeated sibling names): "
-        "that they are refused is checked by the correspondence only (the property does not speak about them)",
         "pandas / polars / list entry points are one model function on a row list; the frame glue is covered by the "
         "correspondence only",
     ]
